@@ -506,7 +506,9 @@ impl<'a> Tc<'a> {
 		// thread wait for itself (C01 witness).
 		if !exp.is_empty() && (self.stats.sections + tid as u64) % 3 == 0 {
 			for attempt in 1..=2 {
-				if let Some(k2) = ThreadKey::get() {
+				// the second attempt asks from a destructor during an unrelated unwind
+				let k2 = if attempt == 1 { ThreadKey::get() } else { in_unwind(ThreadKey::get) };
+				if let Some(k2) = k2 {
 					self.v(
 						"C03",
 						"key_obtainable_while_holding",
